@@ -165,6 +165,11 @@ def exec_case(ctx, r):
             sr = np.asarray(dr.transform_scores(Xr), dtype=float).ravel()
             yr = [int(c) for c in dr.predict(Xr)["ilocs"].tolist()]
         except Exception as ex:
+            if isinstance(ex, RuntimeError) and "GaussianCovCost" in short(spec) and "positive definite" in str(ex):
+                # a slice covariance that is singular up to rounding: the documented error may be
+                # raised for one summation order and not for the other
+                ctx.stat("documented_runtimeerror")
+                return
             ctx.violation(sub, "exception", f"{label}: reversed series raised {type(ex).__name__}: {ex}", r)
             return
         ctx.stat("reversal_pairs")
